@@ -110,14 +110,25 @@ struct KeySet {
     LweParams *lp; TLweParams *tp; TGswParams *gp; TFheGateBootstrappingParameterSet *ps;
     LweKey *lk; TGswKey *gk; LweBootstrappingKey *bk; LweBootstrappingKeyFFT *bf; TFheGateBootstrappingSecretKeySet *sk;
 };
+/* the advisory variance of key rows is stored once, as the maximum over all rows, and comes back on every row.
+   VARROWS: every row gets its own arbitrary non-negative variance (a generated key has 0 on its trivial rows h=0 and alpha^2 on
+   the others), otherwise all rows carry the same value */
+#ifndef VARROWS
+#define VARROWS 0
+#endif
+static double row_variance(double dflt) {
+#if VARROWS
+    double v = nondet_f64(); ASSUME(v >= 0.0 && v <= 1.0); return v;
+#else
+    return dflt;
+#endif
+}
 static void fill_ks(LweKeySwitchKey *ks, int nout) {
     const int R = ks->n * ks->t * ks->base;
-    double v = NOISE_A;
-    for (int r = 0; r < R; r++) { fill_lwe(&ks->ks0_raw[r], nout); ks->ks0_raw[r].current_variance = v; }   /* advisory variance: stored once */
+    for (int r = 0; r < R; r++) { fill_lwe(&ks->ks0_raw[r], nout); ks->ks0_raw[r].current_variance = row_variance(NOISE_A); }
 }
 static void fill_bk(LweBootstrappingKey *bk) {
-    double v = NOISE_B;
-    for (int i = 0; i < PLN; i++) for (int p = 0; p < (PK + 1) * PL; p++) { fill_tlwe(&bk->bk[i].all_sample[p]); bk->bk[i].all_sample[p].current_variance = v; }
+    for (int i = 0; i < PLN; i++) for (int p = 0; p < (PK + 1) * PL; p++) { fill_tlwe(&bk->bk[i].all_sample[p]); bk->bk[i].all_sample[p].current_variance = row_variance(NOISE_B); }
     fill_ks(bk->ks, PLN);
 }
 static void mk_keyset(KeySet &w, bool with_fft) {
@@ -134,12 +145,17 @@ static void mk_keyset(KeySet &w, bool with_fft) {
 static bool eq_ks(const LweKeySwitchKey *x, const LweKeySwitchKey *y, int nout) {
     bool ok = x->n == y->n && x->t == y->t && x->basebit == y->basebit && x->base == y->base && eq_lweparams(x->out_params, y->out_params);
     const int R = x->n * x->t * x->base;
-    for (int r = 0; r < R; r++) ok = ok && eq_lwe(&x->ks0_raw[r], &y->ks0_raw[r], nout, true);
+    double vmax = 0.0;
+    for (int r = 0; r < R; r++) if (x->ks0_raw[r].current_variance > vmax) vmax = x->ks0_raw[r].current_variance;
+    for (int r = 0; r < R; r++) ok = ok && eq_lwe(&x->ks0_raw[r], &y->ks0_raw[r], nout, false) && y->ks0_raw[r].current_variance == vmax;
     return ok;
 }
 static bool eq_bk(const LweBootstrappingKey *x, const LweBootstrappingKey *y) {
     bool ok = eq_lweparams(x->in_out_params, y->in_out_params) && eq_tgswparams(x->bk_params, y->bk_params) && eq_ks(x->ks, y->ks, PLN);
-    for (int i = 0; i < PLN; i++) for (int p = 0; p < (PK + 1) * PL; p++) ok = ok && eq_tlwe(&x->bk[i].all_sample[p], &y->bk[i].all_sample[p], true);
+    double vmax = 0.0;
+    for (int i = 0; i < PLN; i++) for (int p = 0; p < (PK + 1) * PL; p++) if (x->bk[i].all_sample[p].current_variance > vmax) vmax = x->bk[i].all_sample[p].current_variance;
+    for (int i = 0; i < PLN; i++) for (int p = 0; p < (PK + 1) * PL; p++)
+        ok = ok && eq_tlwe(&x->bk[i].all_sample[p], &y->bk[i].all_sample[p], false) && y->bk[i].all_sample[p].current_variance == vmax;
     return ok;
 }
 
